@@ -174,6 +174,47 @@ func c17Closed(t *T) {
 		t.Fail("close", "C17:close-fails:"+c17Kind(k, isDir, flag), fmt.Sprintf("first Close on %s handle of %q failed: %v", stackName(k), path, err))
 	}
 	rf.Close()
+	// in half of the trials another handle is opened after the Close: whatever the closed handle is asked to do
+	// afterwards must not reach it ("handles are independent"; a recycled handle object would be shared)
+	var sfB, rfB hackpadfs.File
+	pathB := ""
+	if c.Chance(1, 2) {
+		pathB = []string{"d/f", "top", "d/g"}[c.Draw(3)]
+		var eS, eR error
+		sfB, eS = hackpadfs.OpenFile(fs, pathB, hackpadfs.FlagReadOnly, 0)
+		rfB, eR = hackpadfs.OpenFile(ref, pathB, hackpadfs.FlagReadOnly, 0)
+		if eS != nil || eR != nil {
+			if eS == nil {
+				sfB.Close()
+			}
+			if eR == nil {
+				rfB.Close()
+			}
+			sfB, rfB = nil, nil
+		} else {
+			defer rfB.Close()
+			defer func() {
+				defer func() { recover() }()
+				sfB.Close()
+			}()
+			if c.Chance(1, 2) {
+				callHandle(sfB, hOp{Kind: "Read", N: 1})
+				callHandle(rfB, hOp{Kind: "Read", N: 1})
+			}
+			t.Stat("c17:handle-opened-after-close")
+		}
+	}
+	defer func() {
+		if sfB == nil || t.Failed() {
+			return
+		}
+		// the later handle: same position and same next bytes as on os
+		gs, ws := callHandle(sfB, hOp{Kind: "Seek", Off: 0, Whence: io.SeekCurrent}), callHandle(rfB, hOp{Kind: "Seek", Off: 0, Whence: io.SeekCurrent})
+		gr, wr := callHandle(sfB, hOp{Kind: "Read", N: 4}), callHandle(rfB, hOp{Kind: "Read", N: 4})
+		if (gs.err == nil) != (ws.err == nil) || gs.off != ws.off || (readClass(gr.n, gr.err) == "fail") != (readClass(wr.n, wr.err) == "fail") || string(gr.data) != string(wr.data) {
+			t.Fail("sibling-disturbed", "C17:closed:"+c17Kind(k, isDir, flag)+":later-handle-disturbed", fmt.Sprintf("a handle of %q opened after the Close of the %s handle of %q: offset %d (err %v), next bytes %q (err %v); on os offset %d (err %v), next bytes %q (err %v)", pathB, stackName(k), path, gs.off, gs.err, gr.data, gr.err, ws.off, ws.err, wr.data, wr.err))
+		}
+	}()
 	n := 1 + c.Draw(8)
 	for i := 0; i < n; i++ {
 		o := hOp{Kind: closedOps[c.Draw(len(closedOps))], N: 3, Data: []byte("zz"), Off: int64(c.Draw(3)), Perm: 0600}
